@@ -627,6 +627,7 @@ func (p *parser) scanEscape(quote rune) {
 func (p *parser) scanString(offset int) (string, error) {
 	// " ' /
 	quote := rune(p.str[offset])
+	isRegExp := quote == '/'
 
 	for p.chr != quote {
 		chr := p.chr
@@ -647,8 +648,9 @@ func (p *parser) scanString(offset int) (string, error) {
 		case chr == '[' && quote == '/':
 			// Allow a slash (/) in a bracket character class ([...])
 			// TODO Fix this, this is hacky...
-			quote = -1
-		case chr == ']' && quote == -1:
+			// (-2, not -1: -1 is the end-of-input character and would end the loop)
+			quote = -2
+		case chr == ']' && quote == -2:
 			quote = '/'
 		}
 	}
@@ -661,7 +663,7 @@ func (p *parser) scanString(offset int) (string, error) {
 newline:
 	p.scanNewline()
 	err := "String not terminated"
-	if quote == '/' {
+	if isRegExp { // also when the literal ends inside a class
 		err = "Invalid regular expression: missing /"
 		p.error(p.idxOf(offset), err)
 	}
